@@ -24,6 +24,22 @@ Theorem C18_anim_alpha_preserved :
 Proof. exact anim_alpha_preserved. Qed.
 Print Assumptions C18_anim_alpha_preserved.
 
+(** The same with failing AddFrame calls (frame encoder errors at chosen calls, muxer frame
+    limit): the alpha planes played are those of the calls that returned nil. *)
+Theorem C18_anim_error_alpha :
+  forall (rt_ll rt_ly : img -> img) (W H : Z) (opts : eopts) (frames : list (img * Z))
+         (oracle : nat -> orc) (fails : nat -> efail) (maxf : Z) (has_meta simple : bool)
+         (st0 stf : est) (acc : list (img * Z)) (out : output),
+    codec_lossless rt_ll -> codec_alpha_exact rt_ly ->
+    wf_canvas_dims W H -> alpha_opts opts -> Forall wf_input frames ->
+    new_encoder W H opts = Some st0 ->
+    run_e repaired true maxf oracle fails st0 frames = (stf, acc) ->
+    close has_meta simple stf = Some out ->
+    same_show_by alpha_only W H (eo_loop opts) out (playback rt_ll rt_ly repaired out)
+                 (inputs_of W H acc).
+Proof. exact anim_error_alpha. Qed.
+Print Assumptions C18_anim_error_alpha.
+
 (** blending never changes alpha: the alpha of a blend depends on the alphas only *)
 Theorem C18_blending_alpha_depends_on_alpha_only : forall s s' d d',
   alpha_only s = alpha_only s' -> alpha_only d = alpha_only d' ->
